@@ -7,6 +7,7 @@ import (
 	"encoding/json"
 	"fmt"
 	"math/rand"
+	"strings"
 
 	"cosmossdk.io/math"
 	sdk "github.com/cosmos/cosmos-sdk/types"
@@ -41,6 +42,7 @@ type Probe struct {
 	Limit int     `json:"limit"`
 	Ok    bool    `json:"ok"`
 	Err   string  `json:"err"`
+	ErrC  string  `json:"errc"` // error class, see errClass
 	Panic bool    `json:"panic"`
 	Paid  []Amt   `json:"paid"`
 	Items []QItem `json:"items"`
@@ -112,7 +114,36 @@ func (w *World) positions(ctx sdk.Context) []position {
 	return out
 }
 
+// errClass maps an error text to a coarse class the specification can compare (TLA+ has no substring operator)
+func errClass(err string) string {
+	switch {
+	case err == "":
+		return ""
+	case strings.Contains(err, "insufficient funds"):
+		return "funds"
+	case strings.Contains(err, "division by zero"):
+		return "divzero"
+	case strings.Contains(err, "insufficient delegation shares"):
+		return "shares"
+	case strings.Contains(err, "insufficient tokens"):
+		return "tokens"
+	case strings.Contains(err, "negative coin amount"):
+		return "negcoin"
+	case strings.Contains(err, "redelegation to this validator already in progress"):
+		return "transitive"
+	}
+	return "other"
+}
+
 func (w *World) RunProbes(pc ProbeCfg, step int) []Probe {
+	ps := w.runProbes(pc, step)
+	for i := range ps {
+		ps[i].ErrC = errClass(ps[i].Err)
+	}
+	return ps
+}
+
+func (w *World) runProbes(pc ProbeCfg, step int) []Probe {
 	ps := []Probe{}
 	ctx, _ := w.Ctx.CacheContext() // read-only probes run on a discarded branch too
 	pos := w.positions(ctx)
@@ -488,6 +519,7 @@ func (w *World) queryProbes(ctx sdk.Context, pos []position) []Probe {
 				"g_start_unix": fmt.Sprint(a.RewardStartTime.Unix()), "g_start_nanos": fmt.Sprint(a.RewardStartTime.UnixNano()),
 				"g_lastChg_unix": fmt.Sprint(a.LastRewardChangeTime.Unix()), "g_lastChg_nanos": fmt.Sprint(a.LastRewardChangeTime.UnixNano()),
 				"g_init": fmt.Sprint(a.IsInitialized),
+				"g_start_nsec": fmt.Sprint(a.RewardStartTime.Nanosecond()), "g_lastChg_nsec": fmt.Sprint(a.LastRewardChangeTime.Nanosecond()),
 			}
 			return nil
 		})
